@@ -28,6 +28,9 @@ pub enum AxisClass {
     /// first value 0 and last value n-1 exactly (like the default index axis), interior knots
     /// moved off the integers
     IndexEnds,
+    /// an exactly uniform grid in which one window of interior knots has been re-placed (late
+    /// or bunched samples): uniform wherever a few probes look, irregular in between
+    UniformDisturbed,
 }
 
 impl AxisClass {
@@ -42,9 +45,10 @@ impl AxisClass {
             AxisClass::Clustered => "clustered-ulps",
             AxisClass::PiecewiseUniform => "piecewise-uniform",
             AxisClass::IndexEnds => "index-ends",
+            AxisClass::UniformDisturbed => "uniform-disturbed",
         }
     }
-    pub const SMOOTH: [AxisClass; 8] = [
+    pub const SMOOTH: [AxisClass; 9] = [
         AxisClass::Unit,
         AxisClass::UniformDyadic,
         AxisClass::UniformInexact,
@@ -53,8 +57,9 @@ impl AxisClass {
         AxisClass::FullMantissa,
         AxisClass::PiecewiseUniform,
         AxisClass::IndexEnds,
+        AxisClass::UniformDisturbed,
     ];
-    pub const ALL: [AxisClass; 9] = [
+    pub const ALL: [AxisClass; 10] = [
         AxisClass::Unit,
         AxisClass::UniformDyadic,
         AxisClass::UniformInexact,
@@ -64,6 +69,7 @@ impl AxisClass {
         AxisClass::Clustered,
         AxisClass::PiecewiseUniform,
         AxisClass::IndexEnds,
+        AxisClass::UniformDisturbed,
     ];
 }
 
@@ -233,6 +239,31 @@ pub fn gen_axis<T: Flt>(rng: &mut Rng, n: usize, class: AxisClass, opts: &AxisOp
             }
             out
         }
+        AxisClass::UniformDisturbed => {
+            // dyadic uniform grid; knots a..b (interior) re-placed strictly inside
+            // (x[a-1], x[b]) on an 8x finer grid: gaps between h/8 and 7h (mesh ratio <= 56)
+            let h = f64::pow2(rng.irange(-4, 4) as i32);
+            let x0 = h * rng.irange(-40, 40) as f64;
+            let mut out: Vec<f64> = (0..n).map(|i| x0 + h * i as f64).collect();
+            if n >= 5 {
+                let len = 1 + rng.below((n - 3).min(6));
+                let a = 1 + rng.below(n - 2 - len + 1);
+                let b = a + len; // knots a..b are re-placed, x[a-1] and x[b] stay
+                let slots = (len + 1) * 8; // fine-grid cells between x[a-1] and x[b]
+                let mut picks: Vec<usize> = Vec::new();
+                while picks.len() < len {
+                    let s = 1 + rng.below(slots - 1);
+                    if !picks.contains(&s) {
+                        picks.push(s);
+                    }
+                }
+                picks.sort();
+                for (k, s) in picks.iter().enumerate() {
+                    out[a + k] = out[a - 1] + h / 8.0 * *s as f64;
+                }
+            }
+            out.into_iter().map(|v| T::of(v * s)).collect()
+        }
         AxisClass::IndexEnds => {
             // gaps between 1/4 and 7/4: mesh ratio <= 7
             let mut out: Vec<T> = (0..n).map(|i| T::of(i as f64)).collect();
@@ -295,15 +326,19 @@ pub enum DataClass {
     Sparse,
     /// smooth function of the row index (slowly varying)
     Smooth,
+    /// a constant background (per trailing index) with one rectangular block of other values:
+    /// padded / masked / saturated data, many exactly equal neighbours
+    Plateau,
 }
 
 impl DataClass {
-    pub const ALL: [DataClass; 5] = [
+    pub const ALL: [DataClass; 6] = [
         DataClass::Dyadic,
         DataClass::FullMantissa,
         DataClass::Offset,
         DataClass::Sparse,
         DataClass::Smooth,
+        DataClass::Plateau,
     ];
     pub fn name(&self) -> &'static str {
         match self {
@@ -312,6 +347,7 @@ impl DataClass {
             DataClass::Offset => "offset",
             DataClass::Sparse => "sparse",
             DataClass::Smooth => "smooth",
+            DataClass::Plateau => "plateau",
         }
     }
 }
@@ -333,6 +369,12 @@ pub fn gen_data<T: Flt>(
     let unit = f64::pow2(-k);
     let offset = *rng.pick(&[1.0e6, -3.0e4, 1024.0, 7.0]);
     let phase: Vec<f64> = (0..lanes).map(|_| rng.f01() * 3.0).collect();
+    // plateau: block [a0, b0) x [a1, b1) over the first two axes; background per trailing index
+    let d1 = shape.get(1).copied().unwrap_or(1).max(1);
+    let tail = (lanes / d1).max(1);
+    let (a0, a1) = (rng.below(rows), rng.below(d1));
+    let (b0, b1) = (a0 + 1 + rng.below(rows - a0), a1 + 1 + rng.below(d1 - a1));
+    let bg: Vec<f64> = (0..tail).map(|_| *rng.pick(&[0.0, -1.0, 0.0, 255.0, 0.5])).collect();
     for idx in 0..n {
         let row = idx / lanes;
         let lane = idx % lanes;
@@ -352,6 +394,14 @@ pub fn gen_data<T: Flt>(
                 let t = row as f64 / rows as f64 + phase[lane];
                 let w = t - t.floor();
                 4.0 * w * (1.0 - w) * (1.0 + lane as f64 * 0.25) + 0.01 * rng.f01()
+            }
+            DataClass::Plateau => {
+                let (i1, t) = (lane / tail, lane % tail);
+                if row >= a0 && row < b0 && i1 >= a1 && i1 < b1 {
+                    rng.irange(-64, 64) as f64 * 0.25 + t as f64
+                } else {
+                    bg[t]
+                }
             }
         };
         v.push(T::of(val * s));
@@ -478,11 +528,20 @@ pub fn gen_row_boundary<T: Flt>(rng: &mut Rng, d1: f64, d2: f64) -> RB<T> {
         _ => {
             let l = rng.below(5);
             let r = rng.below(5);
-            RB::Mixed(
-                gen_single_boundary(rng, l, if l == 3 { d1 } else { d2 }),
-                gen_single_boundary(rng, r, if r == 3 { d1 } else { d2 }),
-            )
+            gen_mixed_pair(rng, l, r, d1, d2)
         }
+    }
+}
+
+/// Mixed(left, right); when both ends are of the same kind the *same value* is used on both
+/// ends now and then (equal end slopes / equal end curvatures)
+pub fn gen_mixed_pair<T: Flt>(rng: &mut Rng, l: usize, r: usize, d1: f64, d2: f64) -> RB<T> {
+    let left = gen_single_boundary(rng, l, if l == 3 { d1 } else { d2 });
+    let right = gen_single_boundary(rng, r, if r == 3 { d1 } else { d2 });
+    if l % 5 == r % 5 && rng.chance(0.35) {
+        RB::Mixed(left.clone(), left)
+    } else {
+        RB::Mixed(left, right)
     }
 }
 
